@@ -442,7 +442,18 @@ void runFiles(const Plan& p)
 			{
 				ok = f.open(how == 1 ? asl::File::APPEND : asl::File::WRITE);
 				if (ok)
-					ok = f.write(data.data(), (int)data.size()) == (int)data.size();
+				{
+					// a size-limited logger style history: write, flush, look at the size while still open, write more
+					size_t half = data.size() / 2;
+					ok = f.write(data.data(), (int)half) == (int)half;
+					f.flush();
+					if (o.arg(3) & 1)
+					{
+						(void)f.size();
+						(void)f.exists();
+					}
+					ok = ok && f.write(data.data() + half, (int)(data.size() - half)) == (int)(data.size() - half);
+				}
 			}
 			f.close();
 			m.files[path] = expect;
